@@ -68,7 +68,7 @@ MANIFEST_NOTE = ("Trusted: Lean kernel (+propext/Classical.choice/Quot.sound), t
 TECHNIQUE = "Lean 4 proof over a message-level stateful model of Interface/BufferedCommunicator (induction over histories, deadlock-freedom of a phase transition system) + translator for the attribute tests and enumset.hh + differential correspondence under MPI with PMPI schedule steering and a definition-level oracle"
 TRANSLATORS = [tr_c05.translate]
 HARNESS = dict(
-    sources=["mpi_c05.cc", "pmpi_sched.cc"],
+    sources=["mpi_c05.cc", "pmpi_c05.cc"],
     mpi=True,
     repo_sources=["dune/common/exceptions.cc", "dune/common/stdstreams.cc"],
 )
